@@ -60,7 +60,7 @@ Fixpoint pv_same (a b : pv) : bool :=
 Definition num_eq (a b : pv) : bool :=
   match a, b with
   | PInt x, PInt y => Z.eqb x y
-  | PFloat x, PFloat y => PrimFloat.eqb x y
+  | PFloat x, PFloat y => PrimFloat.eqb x y || (negb (PrimFloat.eqb x x) && negb (PrimFloat.eqb y y))    (* a NaN result is the same NaN result *)
   | PInt x, PFloat y | PFloat y, PInt x => match float_of_Z x with Ok f => PrimFloat.eqb f y | _ => false end
   | _, _ => false
   end.
